@@ -220,21 +220,33 @@ def check_property(pid, tier="quick", seed=0, out=sys.stdout):
                 violations.append((ob, rep, fname))
     # ---- bounded stand-ins (labelled; never counted as proved) ----
     bounded_reports = []
-    for con in REG.for_property(pid):
-        if not con.bounded:
-            continue
+    from concurrent.futures import ThreadPoolExecutor
+
+    from .source import REPO_SRC
+
+    def _run_standin(con):
         script, nq, nt = con.bounded
         n = nq if tier == "quick" else nt
         rep = {"function": con.qualname, "tool": "run-time check of the contract on generated inputs (" + script + ")", "n": n}
         try:
-            from .source import REPO_SRC
-
-            p = subprocess.run(["/venv/bin/python", os.path.join(VERIF, script), str(n)], capture_output=True, text=True, timeout=600,
+            # generous limit: the stand-ins of one check run four at a time and the machine may be busy; a time-out is a checker
+            # failure (exit 3), never a verdict
+            p = subprocess.run(["/venv/bin/python", os.path.join(VERIF, script), str(n)], capture_output=True, text=True,
+                               timeout=900 if tier == "quick" else 3600,
                                env=dict(os.environ, PYVC_REPO_SRC=REPO_SRC, VERIF_SEED=str(seed)))
             rep.update(json.loads(p.stdout.strip().splitlines()[-1]))
+            return rep, None
         except Exception as e:  # noqa: BLE001
             rep["error"] = repr(e)
-            crashes.append(f"bounded stand-in for {con.qualname} could not run: {e!r}")
+            return rep, f"bounded stand-in for {con.qualname} could not run: {e!r}"
+
+    standins = [con for con in REG.for_property(pid) if con.bounded]
+    with ThreadPoolExecutor(max_workers=4) as pool:
+        standin_results = list(pool.map(_run_standin, standins))
+    for con, (rep, err) in zip(standins, standin_results):
+        script = con.bounded[0]
+        if err:
+            crashes.append(err)
         bounded_reports.append(rep)
         # known findings of a bounded stand-in are matched per failing input by its signature (never by count): a failure
         # whose signature is not listed -- or a report that does not list every failure -- is a violation
